@@ -33,14 +33,15 @@ DEFS = [
     ('basic::B5', '', range(0, 11), (0, 1), ['abcdefg?', 'abcdefgh?', 'abcdefghi?', 'abcdefghijklmnop?', 'abcdefghijklmno-?', '-abcdefgh?x'], (0, 1)),
     ('basic::B6', '', range(0, 3), (0,), ["'?", "'?'", "'\\\\?", "'\\\\?'", "\\\\?", "'a?", "''?", "??"], (0,)),
     ('basic::B7', '', range(0, 3), (0,), ['#?', '#abcdefghi?', '#abcdefghij?', '#abcdefghijk?', '#abcdefghijklmnop?', '#abcdefghijklmnopqr?', '#abcdefghijklmnopqrstuvwx?', 'ab#cdefghijkl?', '#abcdefghij\\n?', '?', '#??'], (0, 2)),
+    ('basic::B8', '', range(0, 3), (0,), ['\x01?', '\x01\x02?', '\x00\x20?', '\xff\xfe?', '\x80?', '\x01\x02\x03\x04\x05\x06\x07\x08\x09?', 'a?', '\xff\xfe\xfd\xfc\xfb\xfa\xf9\xf8\xf7\xf6?'], (0,)),
     ('basic::E1', '', range(0, 6), (0, 1), ['ab?', 'abc?', 'abcd?', 'x1?', 'x12?', 'x?', 'abcd??', 'x1y?'], (0, 1)),
     ('skip::S1', ' \t', range(0, 2), (0,), [' a?', 'ab ?', 'a?', 'a ?', ' ?', '  ?', 'a \t?', '1 ? ', ' =?', 'a??', ' ??', 'ab=?1', '\t? a'], (0, 1)),
     ('skip::S3', ' ', range(0, 2), (0,), [' \r?', 'a \r?', ' \r\n?', '  \r?', 'a  ?', ' ?', '\r?', ' \rb?', ' \r?b'], (0, 1)),
     ('skip::S2', '\n-', range(0, 3), (0,), ['-?', '--?', '\n?', '---?', 'a-?', '--\n?', '-??', '->?'], (0, 1)),
     ('utf8::U1', '', range(0, 3), (0,), ['é?', '€?', '€€?', '€€x?', '😀?', 'aß?', '?', 'ö?', '€é?', 'Ã?'[:0] + 'a?'], (0,)),
     ('utf8::U2', '', range(0, 2), (0,), ['x?', 'x??', '"?', '"é?', '"€"?', 'x€?', '"a?'], (0,)),
-    ('callbacks::K1', 'efghkl', range(0, 2), (0,), [c + '?' for c in 'abcdefghijklmn'] + ['n?!', 'n5?', 'e1a?', 'g0b?', 'f1f4c?', 'h0m?', 'l1??', '!?', 'n1!?'], (0,)),
-    ('callbacks::K2', 'pqrs', range(0, 2), (0,), ['p?', 'q?', 'r?', 's?', 'x?', 'pqa?', 'r0x?', 's0?', '?', 'a?', 'r1?', 'pr0qs0x?'], (0,)),
+    ('callbacks::K1', 'efghklo', range(0, 2), (0,), [c + '?' for c in 'abcdefghijklmno'] + ['n?!', 'n5?', 'e1a?', 'g0b?', 'f1f4c?', 'h0m?', 'l1??', '!?', 'n1!?', 'o1!?', 'o1!a?', 'o?!', 'o1a?'], (0,)),
+    ('callbacks::K2', 'pqrst', range(0, 2), (0,), ['p?', 'q?', 'r?', 's?', 'x?', 'pqa?', 'r0x?', 's0?', '?', 'a?', 'r1?', 'pr0qs0x?', 't?', 't0x?', 'u?', 't0u?'], (0,)),
     ('literal::L1', '', range(0, 3), (0, 1), ['a?', 'a.?', 'a.b?', 'a.b*?', '[?', '[x?', '\\?', '$?', 'a|?', '+?', 'a??', '?0', 'ab?'], (0,)),
     ('literal::L2', '', range(0, 3), (0,), ['é?', 'é|?', 'é|€?', '.?', 'é??', '\\?'], (0,)),
     ('literal::I1', 'zZ', range(0, 2), (0,), ['a?', 'A?', 'k?', 'K?', 'x?', 'X?', 'kß?', 'K?\u1e9e'[:2], 'z?', 'Za?', 'a.?', 'q?', '\u212a?', 'k??', 'ks?', 'k\u017f?', '\u212as?', '\u212a\u017f?', 'K\u1e9e?', '\u212a\u00df?'], (0,)),
@@ -51,6 +52,8 @@ DEFS = [
     ('twins::O2', '_', range(0, 3), (0,), ['1?', '_?', 'n?', '_1?', '12_?'], (0,)),
     ('twins::O3', '_', range(0, 3), (0,), ['h?', '_h?', 'h\u00e9?'], (0,)),
     ('twins::Q1', ' ', range(0, 4), (0,), ['.?', '..?', '...?', ' ?', '. ?', '.. .?'], (0,)),
+    ('twins::Q2', '', range(0, 3), (0,), ['1?', '12?', '1a?', '1 ?', 'x?', 'ax?', '7', '12', 'x', 'ab x', '1_?', '12 ?3', '?'], (0, 3)),
+    ('twins::Q3', '#abcdefghijklmnopqrstuvwxyz', range(0, 3), (0,), ['#?', '#a?', 'x#a?', 'a ?', '#ab ?', '?'], (0,)),
     ('utf8::E2', '', range(0, 4), (0,), ['a?', 'a€?', 'a??', '€?', '😀?', '???', '????', '\U00010000?', '\U00040000?', '\U00010000a?', 'a\U0010ffff?', '\u20ada?'], (0,)),
 ]
 
@@ -134,6 +137,7 @@ for (a, b, ctxs) in MODES:
 PART = [  # (T, contexts, start)  -- every split point k < N
     ('twins::Q1', ['.?', '..?', '...?', ' .?', '. ?', '??', '???', '.. ?'], 0),
     ('twins::Q2', ['1?', '10?', '10p?', '7 ?', 'w 10?', '1??', 'x?', 'ax?'], 0),
+    ('twins::Q3', ['#?', '#a?', '#ab?', 'x#a?', 'a #b?', '#a b?'], 0),
     ('basic::B1', ['i?', 'if?', 'ifx?', '1?', '1.?', '1.5?', '??', 'a1?'], 0),
     ('basic::B2', ['a?', 'ab?', 'abc?', 'aa?', '??', '???'], 0),
     ('basic::E1', ['ab?', 'abc?', 'abcd?', 'x1?', 'x?y'], 0),
